@@ -690,7 +690,9 @@ def run_property(pid, module_names, tier="quick", jobs=None, only=None):
             elif v["verdict"] in ("refuted", "refuted-nomodel"):
                 if v.get("known") and v.get("outside_known") == "discharged":
                     e = [x for x in kf if x["obligation"] in (full, name + "/*")][0]
-                    known_lines.append("KNOWN-FINDING: property=%s %s [%s]" % (pid, e["what"], full))
+                    line = "KNOWN-FINDING: property=%s %s [%s]" % (pid, e["what"], full)
+                    if line not in known_lines:
+                        known_lines.append(line)
                     continue
                 if v.get("known") and v.get("outside_known") == "unknown":
                     undecided.append("%s: undecided outside the known-finding scope" % full)
@@ -756,6 +758,7 @@ def run_property(pid, module_names, tier="quick", jobs=None, only=None):
         tb = time.time()
         n = bad = nontriv = 0
         first_bad = []
+        known_hits = {}
         bsamples = []
         try:
             for item in fn(rng, tier):
@@ -767,11 +770,17 @@ def run_property(pid, module_names, tier="quick", jobs=None, only=None):
                     bsamples.append(str(label))
                 if not ok:
                     bad += 1
-                    if len(first_bad) < 50:
+                    hit = _known_hit(kf, name, label)
+                    if hit is not None:
+                        known_hits.setdefault(hit["what"], 0)
+                        known_hits[hit["what"]] += 1
+                    elif len(first_bad) < 50:
                         first_bad.append((label, detail))
         except Exception as e:
             crashes.append("bounded %s crashed: %s\n%s" % (name, e, traceback.format_exc()))
             continue
+        for what, cnt in known_hits.items():
+            known_lines.append("KNOWN-FINDING: property=%s %s [%s, %d cases]" % (pid, what, name, cnt))
         bounded_info.append({"name": name, "evaluations": n, "distinct_nontrivial": nontriv, "failed": bad,
                              "grid": opts.get("grid", ""), "samples": bsamples,
                              "wall_s": round(time.time() - tb, 2)})
@@ -854,23 +863,28 @@ def run_property(pid, module_names, tier="quick", jobs=None, only=None):
     return 0
 
 
+def _known_hit(kf, name, label):
+    for e in kf:
+        if e.get("obligation") == name and ("label" in e or "label_pred" in e or e.get("all")):
+            if e.get("all") or (e.get("label") is not None and str(label).startswith(e["label"])) or _label_match(e, label):
+                return e
+    return None
+
+
 def _report_native_failures(pid, module_names, name, first_bad, kf, known_lines, violations, kind):
     """failures of ground/bounded clauses are concrete inputs: each is either
     listed in known_findings.json (by label prefix) or a violation"""
     unlisted = []
     seen_known = set()
     for label, detail in first_bad:
-        hit = None
-        for e in kf:
-            if e["obligation"] == name and (e.get("label") is None or str(label).startswith(e["label"])
-                                            or _label_match(e, label)):
-                hit = e
-                break
+        hit = _known_hit(kf, name, label)
         if hit is not None:
             key = hit["what"]
             if key not in seen_known:
                 seen_known.add(key)
-                known_lines.append("KNOWN-FINDING: property=%s %s [%s]" % (pid, hit["what"], name))
+                line = "KNOWN-FINDING: property=%s %s [%s]" % (pid, hit["what"], name)
+                if not any(l.startswith(line[:-1]) for l in known_lines):
+                    known_lines.append(line)
         else:
             unlisted.append((label, detail))
     if unlisted:
